@@ -553,7 +553,7 @@ fn c14_seq_oracle(sc: &Scenario, ex: &Execution, info: &mut CaseInfo) -> Vec<Fin
 fn delivery_strategy(_t: Tier) -> BoxedStrategy<Scenario> {
     gen::traffic(
         gen::qcfg(BOTH, FutMode::Mixed, gen::cap_small(), gen::wait_any()),
-        TrafficParams::default(),
+        TrafficParams { fork: 2, ..TrafficParams::default() },
         500,
         conc_opts(),
     )
@@ -617,6 +617,7 @@ fn capacity_strategy(_t: Tier) -> BoxedStrategy<Scenario> {
             w_send: 2,
             w_try: 8,
             w_sendk: 3,
+            fork: 2,
             ..TrafficParams::default()
         },
         500,
@@ -688,9 +689,14 @@ fn c07_oracle(sc: &Scenario, ex: &Execution, info: &mut CaseInfo) -> Vec<Finding
     info.class(format!("max_consumers_per_stream={}", h.max_handles_on_a_stream().min(4)));
     info.count("end_reports", ends as u64);
     info.nontrivial = racing_end && overlap;
-    let _ = note_stuck(&h, info);
+    // a consumer that is never told the end (stuck although every sender is gone) is a violation too
+    let stuck: Vec<Finding> = note_stuck(&h, info)
+        .into_iter()
+        .filter(|f| f.facts.get("all_senders_gone") == Some(&serde_json::Value::Bool(true)))
+        .collect();
     let mut f = orc::hangup(&h);
     f.extend(keep(orc::delivery(&h), &["Lost"]));
+    f.extend(stuck);
     f
 }
 
@@ -703,6 +709,7 @@ fn population_strategy(_t: Tier) -> BoxedStrategy<Scenario> {
             w_clone_rx: 4,
             w_convert: 3,
             max_consumers: 2,
+            fork: 1,
             ..TrafficParams::default()
         },
         500,
